@@ -19,6 +19,7 @@ reading name/dtype/shape/size/nbytes of any resulting tensor.
 from __future__ import annotations
 
 import binascii
+import zlib
 import logging
 import random
 
@@ -45,7 +46,14 @@ ASSUMPTIONS = [
     "C17_idempotent is proved for every proto of the model (dangling / duplicate / shadowed names, "
     "placeholders, unproduced outputs included); the model's serialize . deserialize is also run twice on "
     "every generated proto (counter model_not_fixpoint must stay 0) and the oracle checks the real code",
-    "audit events are those CPython raises for open/os.*/mmap/shutil/tempfile/glob/pathlib",
+    "file access = audit events CPython raises for open/os.*/mmap/shutil/tempfile/glob/pathlib PLUS calls of the "
+    "stat family (os.stat/lstat/access/readlink/scandir/listdir/statvfs, os.path.realpath and everything built on "
+    "them: exists/getsize/isfile/...), which raise no audit event and are caught by counting wrappers; reads of "
+    ".py/.pyc/.so under the interpreter prefix (lazy imports) are not counted. There is no theorem for this "
+    "clause: the model has no file system",
+    "C17_total is a case split on Except (termination = Lean accepted the structural recursion)",
+    "time limit = 20 s CPU time of the worker (ITIMER_PROF) with a 6x wall-clock backstop; an expiry is "
+    "re-run once and only a second expiry is reported",
 ]
 
 TIME_LIMIT_S = 20.0
@@ -196,6 +204,7 @@ def mutate_fields(rng, m: onnx.ModelProto, hist: dict) -> None:
         ["unknown_elem_type", "unknown_attr_type", "tensor_inconsistent", "external_absurd", "drop_types",
          "cycle", "dup_attr_name", "tensor_unknown_dtype", "output_of_outer", "rename_to_dup",
          "shape_without_type", "func", "vinfo_metadata", "tensor_metadata", "big_dims", "seq_no_elem",
+         "quant_annotation", "quant_annotation", "graph_node_metadata", "device_config", "device_config",
          "map_type", "swap_io"]
     )
     hist[f"mut={kind}"] = hist.get(f"mut={kind}", 0) + 1
@@ -309,6 +318,49 @@ def mutate_fields(rng, m: onnx.ModelProto, hist: dict) -> None:
         vi.type.map_type.key_type = 7
     elif kind == "swap_io" and len(g.input) and len(g.output):
         g.output[0].name = g.input[0].name
+    elif kind == "quant_annotation":
+        names = [i.name for i in g.input] + [t.name for t in g.initializer] + [o for n in g.node for o in n.output]
+        for _ in range(rng.randrange(1, 3)):
+            a = g.quantization_annotation.add()
+            a.tensor_name = rng.choice(names + ["ghost_q", ""]) if names else "ghost_q"
+            for k, v in rng.sample([("SCALE_TENSOR", "s"), ("ZERO_POINT_TENSOR", "z"), ("", ""), ("k", "v")], k=rng.randrange(0, 3)):
+                e = a.quant_parameter_tensor_names.add()
+                e.key, e.value = k, v
+    elif kind == "graph_node_metadata":
+        e = g.metadata_props.add()
+        e.key, e.value = rng.choice(["gk", "gk", ""]), "gv"
+        if len(g.node):
+            n = rng.choice(list(g.node))
+            for _ in range(rng.randrange(1, 3)):
+                e = n.metadata_props.add()
+                e.key, e.value = rng.choice(["nk", "nk", "nk2"]), rng.choice(["nv", ""])
+        e = m.metadata_props.add()
+        e.key, e.value = "mk", "mv"
+    elif kind == "device_config":
+        m.ir_version = rng.choice([11, 12, 13, 10, 9])
+        for cname in rng.sample(["cfg0", "cfg1", "cfg0"], k=rng.randrange(0, 3)):
+            c = m.configuration.add()
+            c.name, c.num_devices = cname, rng.choice([0, 2, -1])
+            c.device.extend(rng.choice([[], ["d0", "d1"], ["d0"]]))
+        for n in rng.sample(list(g.node), k=min(len(g.node), rng.randrange(1, 3))):
+            dc = n.device_configurations.add()
+            dc.configuration_id = rng.choice(["cfg0", "cfg1", "nope", ""])
+            if rng.random() < 0.5:
+                dc.pipeline_stage = rng.choice([0, 1, -3])
+            names = [x for x in list(n.input) + list(n.output)]
+            for _ in range(rng.randrange(0, 3)):
+                sp = dc.sharding_spec.add()
+                sp.tensor_name = rng.choice(names + ["ghost_s", ""]) if names else "ghost_s"
+                sp.device.extend(rng.choice([[], [0, 1], [-1]]))
+                if rng.random() < 0.5:
+                    sd = sp.sharded_dim.add()
+                    sd.axis = rng.choice([0, 1, -1, 99])
+                    ss = sd.simple_sharding.add()
+                    ss.num_shards = rng.choice([2, 0, -1])
+                    if rng.random() < 0.5:
+                        ss.dim_value = 4
+                    else:
+                        ss.dim_param = "N"
 
 
 def ir9_unparseable_function_value_info(q, q2) -> bool:
@@ -322,7 +374,92 @@ def ir9_unparseable_function_value_info(q, q2) -> bool:
     return False
 
 
+def _wire_spans(b: bytes, start: int, end: int, depth: int, out: list) -> bool:
+    """walk the protobuf wire format of b[start:end]; append (kind, lo, hi, depth) for varint values and for
+    the payloads of length-delimited fields (recursing into payloads that parse as messages).  Returns
+    False when the bytes are not a well-formed message."""
+    i = start
+    spans: list = []
+
+    def varint(i):
+        v, shift, j = 0, 0, i
+        while j < end:
+            c = b[j]
+            v |= (c & 0x7F) << shift
+            j += 1
+            if not c & 0x80:
+                return v, j
+            shift += 7
+            if shift > 63:
+                return None, j
+        return None, j
+
+    while i < end:
+        key, j = varint(i)
+        if key is None or key >> 3 == 0:
+            return False
+        wt = key & 7
+        if wt == 0:
+            v, k = varint(j)
+            if v is None:
+                return False
+            spans.append(("varint", j, k, depth))
+            i = k
+        elif wt == 1:
+            if j + 8 > end:
+                return False
+            spans.append(("fixed", j, j + 8, depth))
+            i = j + 8
+        elif wt == 5:
+            if j + 4 > end:
+                return False
+            spans.append(("fixed", j, j + 4, depth))
+            i = j + 4
+        elif wt == 2:
+            n, k = varint(j)
+            if n is None or k + n > end:
+                return False
+            sub: list = []
+            if n and depth < 12 and _wire_spans(b, k, k + n, depth + 1, sub):
+                spans.extend(sub)
+            elif n:
+                spans.append(("bytes", k, k + n, depth))
+            i = k + n
+        else:
+            return False
+    out.extend(spans)
+    return True
+
+
+def mutate_bytes_structured(rng, data: bytes, hist: dict) -> bytes:
+    """mutations that keep the wire framing valid (so that protobuf accepts the bytes and onnx_ir sees them):
+    another value for a varint (enum / dims / versions) of the same encoded length, changed bytes inside a
+    string / bytes payload (invalid UTF-8 included), changed fixed32/64 values"""
+    spans: list = []
+    if not data or not _wire_spans(data, 0, len(data), 0, spans) or not spans:
+        return data
+    b = bytearray(data)
+    for _ in range(rng.randrange(1, 4)):
+        kind, lo, hi, _d = rng.choice(spans)
+        hist[f"bytemut=struct:{kind}"] = hist.get(f"bytemut=struct:{kind}", 0) + 1
+        if kind == "varint":
+            n = hi - lo
+            val = rng.choice([0, 1, 2, 7, 8, 16, 17, 23, 26, 27, 100, rng.randrange(128)])
+            for k in range(n):
+                piece = (val >> (7 * k)) & 0x7F if k < 2 else rng.randrange(128) if n > 2 and rng.random() < 0.3 else 0
+                b[lo + k] = piece | (0x80 if k < n - 1 else 0)
+        elif kind == "bytes":
+            for _k in range(rng.randrange(1, 3)):
+                i = rng.randrange(lo, hi)
+                b[i] = rng.choice([0xFF, 0xC0, 0x80, 0x00, 0x2F, 0x3A, rng.randrange(256)])
+        else:
+            b[rng.randrange(lo, hi)] ^= 1 << rng.randrange(8)
+    return bytes(b)
+
+
 def mutate_bytes(rng, data: bytes, hist: dict) -> bytes:
+    if rng.random() < 0.6:
+        return mutate_bytes_structured(rng, data, hist)
     b = bytearray(data)
     kind = rng.choice(["flip", "flip", "truncate", "insert", "utf8", "dup_slice", "zero"])
     hist[f"bytemut={kind}"] = hist.get(f"bytemut={kind}", 0) + 1
@@ -355,6 +492,52 @@ def mutate_bytes(rng, data: bytes, hist: dict) -> bytes:
 # --------------------------------------------------------------------------- one case
 
 
+def run_entrypoints(part, m: onnx.ModelProto, case) -> None:
+    """the top-level deserializers other than deserialize_model, on the parts of the proto: each call must
+    terminate, touch no file, and what deserialize_graph / deserialize_function return must be consistent"""
+    from onnx_ir import serde
+
+    calls = [("deserialize_graph", serde.deserialize_graph, m.graph)]
+    calls += [("deserialize_function", serde.deserialize_function, f) for f in list(m.functions)[:2]]
+    calls += [("deserialize_node", serde.deserialize_node, n) for n in list(m.graph.node)[:2]]
+    calls += [("deserialize_tensor", serde.deserialize_tensor, t) for t in list(m.graph.initializer)[:2]]
+    calls += [("deserialize_attribute", serde.deserialize_attribute, a) for n in list(m.graph.node)[:2]
+              for a in list(n.attribute)[:2]]
+    calls += [("deserialize_value_info_proto", lambda p: serde.deserialize_value_info_proto(p, None), v)
+              for v in list(m.graph.value_info)[:1] + list(m.graph.input)[:1]]
+    for name, fn, proto in calls:
+        audit = sc.FileAudit()
+        res = None
+        try:
+            with sc.TimeLimit(TIME_LIMIT_S), audit:
+                try:
+                    res = fn(proto)
+                except Exception:  # noqa: BLE001 - raising is allowed
+                    part.count(f"entry_raised={name}")
+        except sc.TimeLimit.Expired:
+            try:
+                with sc.TimeLimit(TIME_LIMIT_S):
+                    try:
+                        fn(proto)
+                    except Exception:  # noqa: BLE001
+                        pass
+                part.count(f"timeout_unconfirmed:{name}")
+            except sc.TimeLimit.Expired:
+                part.fail(f"timeout:{name}", f"{name} did not finish within {TIME_LIMIT_S}s CPU time (twice)", case)
+            continue
+        part.count(f"entry={name}")
+        if audit.events:
+            part.fail(f"file-access:{name}", f"file-system events during {name}: {audit.events[:3]}", case)
+        if res is not None and name in ("deserialize_graph", "deserialize_function"):
+            g = res.graph if name == "deserialize_function" else res
+            try:
+                bad = sc.check_consistency([g])
+            except RecursionError:
+                bad = []
+            if bad:
+                part.fail(f"inconsistent:{name}:" + bad[0].split(":")[0].split(" ")[0], "; ".join(bad[:3]), case)
+
+
 def run_case(part, m: onnx.ModelProto, stream: str, want_model: bool, lean_reqs: list, pending: list) -> None:
     """Run the real code + oracle on one ModelProto; queue the Lean request (answered later)."""
     import onnx_ir as ir
@@ -380,15 +563,21 @@ def run_case(part, m: onnx.ModelProto, stream: str, want_model: bool, lean_reqs:
     model = None
     err = None
     audit = sc.FileAudit()
-    try:
-        with sc.TimeLimit(TIME_LIMIT_S), audit:
-            try:
-                model = serde.deserialize_model(m)
-            except Exception as e:  # noqa: BLE001 - every exception type is an acceptable "raises"
-                err = e
-    except sc.TimeLimit.Expired:
-        part.fail("timeout:from_proto", f"from_proto did not finish within {TIME_LIMIT_S}s", case)
-        return
+    for attempt in (1, 2):
+        model, err = None, None
+        try:
+            with sc.TimeLimit(TIME_LIMIT_S), audit:
+                try:
+                    model = serde.deserialize_model(m)
+                except Exception as e:  # noqa: BLE001 - every exception type is an acceptable "raises"
+                    err = e
+            break
+        except sc.TimeLimit.Expired:
+            if attempt == 1:
+                part.count("timeout_retry:from_proto")  # confirm before reporting (CPU-time limit, second run)
+                continue
+            part.fail("timeout:from_proto", f"from_proto did not finish within {TIME_LIMIT_S}s CPU time (twice)", case)
+            return
     if audit.events:
         part.fail("file-access:from_proto", f"file-system events during from_proto: {audit.events[:3]}", case)
     outcome = "ok" if err is None else "raised"
@@ -438,6 +627,15 @@ def run_case(part, m: onnx.ModelProto, stream: str, want_model: bool, lean_reqs:
                         q = serde.serialize_model(model)
                 except Exception as e:  # noqa: BLE001
                     part.count(f"to_proto_raised={type(sc.root_cause(e)).__name__}")
+                    flags["to_proto_error"] = f"{type(sc.root_cause(e)).__name__}: {sc.root_cause(e)!s:.100}"
+                    flags["to_proto_where"] = sc.innermost_wrapper(e)
+                    tb = sc.root_cause(e).__traceback__
+                    names = set()
+                    while tb is not None:
+                        names.add(tb.tb_frame.f_code.co_name)
+                        tb = tb.tb_next
+                    flags["to_proto_frames"] = sorted(names & {"serialize_tensor_into", "serialize_attribute_into",
+                                                                 "serialize_type_into", "tobytes", "numpy", "string_data"})
                 if audit3.events:
                     # serializing what from_proto returned must not open / stat the files that
                     # external tensors of the (untrusted) proto point to
@@ -472,8 +670,20 @@ def run_case(part, m: onnx.ModelProto, stream: str, want_model: bool, lean_reqs:
                             sig = "fixpoint:" + d
                         part.fail(sig, f"to_proto(from_proto(q)) != q; first difference at {d}", case)
         except sc.TimeLimit.Expired:
-            part.fail("timeout:to_proto", "serialization / re-deserialization did not finish", case)
-            return
+            # confirm with a second run before reporting (the limit is CPU time, but be sure)
+            try:
+                with sc.TimeLimit(TIME_LIMIT_S):
+                    qq = serde.serialize_model(model)
+                    serde.serialize_model(serde.deserialize_model(qq))
+                part.count("timeout_unconfirmed:to_proto")
+            except sc.TimeLimit.Expired:
+                part.fail("timeout:to_proto", "serialization / re-deserialization did not finish (twice)", case)
+                return
+            except Exception:  # noqa: BLE001
+                part.count("timeout_unconfirmed:to_proto")
+    # ---- the other public entry points (a fifth of the cases, chosen by content)
+    if zlib.crc32(_det(m)) % 5 == 0:
+        run_entrypoints(part, m, case)
     # ---- model
     if gp is not None and mp is not None:
         part.count("model_with_functions")
@@ -521,8 +731,11 @@ def diff_case(part, out: dict, case, flags, model, err, q) -> None:
             if kind == "TypeError" and "missing 1 required positional argument: 'base_path'" in str(sc.root_cause(err)):
                 where = "deserialize_tensor"  # D105: the error-capturing wrapper of deserialize_tensor itself fails
             part.count(f"raised_outside_model={kind}@{where}")
-            if where in ("_deserialize_graph", "_deserialize_node", "") and out.get("ok"):
-                # raised by the name-resolution code itself (not by a leaf decoder): the model must know
+            if out.get("ok"):
+                # The abstraction (graph_proto_to_model) already refuses every proto on which a leaf decoder is
+                # known to raise (unknown dtype / attribute type, map or sparse types, malformed external entries):
+                # a proto that reaches the model and makes the real code raise anything but `redeclared` /
+                # KeyError-in-function is unexplained.
                 part.disagree(f"real code raises {kind} in {where or 'deserialize_model'}, model returns an IR",
                               case, "ok", f"{kind}: {sc.root_cause(err)!s:.120}")
         return
@@ -563,7 +776,19 @@ def diff_case(part, out: dict, case, flags, model, err, q) -> None:
         return
     # serialization of the deserialized IR
     if q is None:
-        part.count("to_proto_raised_outside_model")  # e.g. an UNDEFINED attribute: nothing name-related
+        # to_proto raised although the model serializes: only for reasons that are outside the model by
+        # construction (attribute payloads and string fields are not modelled); anything else is flagged
+        why = flags.get("to_proto_error", "?")
+        known = ("Unsupported attribute type: UNDEFINED", "UnicodeDecodeError", "codec can't decode",
+                 "Cannot serialize a ShardingSpec", "Cannot serialize a NodeDeviceConfiguration")
+        where = flags.get("to_proto_where", "")
+        leaf = where in ("serialize_tensor_into", "serialize_attribute_into", "serialize_type_into",
+                         "serialize_shape_into", "serialize_dimension_into")
+        if leaf or flags.get("to_proto_frames") or any(k in why for k in known):
+            # a leaf encoder (tensor payload, attribute payload, type): opaque tokens in the model
+            part.count(f"to_proto_raised_outside_model={why.split(':')[0]}@{where}")
+        else:
+            part.disagree("to_proto raises for an unexplained reason, model serializes", case, "ok", why)
         return
     if not out.get("ser_ok"):
         part.disagree("model serialization raises, to_proto returns", case, out.get("ser_ok"), True)
